@@ -1,4 +1,5 @@
 """C10 — significant and bracketed durations locate threshold crossings exactly."""
+import math
 import numpy as np
 from fractions import Fraction
 from harness import core, gens
@@ -6,7 +7,8 @@ from harness.core import q, qlist, cbool, Case, guarded, ImplError, frac
 
 RULE = ('cases = (function, record, dt, fractions or threshold, se in {T,F}); records: integer series scaled by 2^-s (s up to 30, incl. weak motion), '
         'plateau/sparse/zero-prefixed; fractions dyadic (k/16) and the default 0.05/0.95; thresholds placed exactly ON sample magnitudes (incl. the peak), between them, 0 and above the peak; '
-        'custom cumulative measures: calc_cav, calc_isv and a step function; a case is skipped as fragile (counted) when a float threshold product decides a comparison differently from exact arithmetic; '
+        'custom cumulative measures: calc_cav, calc_isv and a step function, and a signed measure that is NOT monotone (net impulse cumsum(values)*dt of records whose impulse rises, dips below the lower fraction and rises again / '
+        'overshoots the final value / oscillates through the band / ends at or below zero: start and end are the first and last in-band samples whatever the shape); a case is skipped as fragile (counted) when a float threshold product decides a comparison differently from exact arithmetic; '
         'non-trivial = some sample qualifies, or the empty-result branch is exercised on a non-zero record')
 TRUSTED = [
     'Coq 8.16.1 kernel + vm_compute',
@@ -23,6 +25,57 @@ TRUSTED = [
 def step_measure(asig):
     v = np.abs(asig.values)
     return np.cumsum(np.where(v > 0.5 * v.max(), 1.0, 0.0))
+
+
+def net_impulse(asig):
+    """signed cumulative measure (net impulse of the record): not monotone"""
+    return np.cumsum(asig.values) * asig.dt
+
+
+def impulse_table(rng, lo, hi):
+    """integer table the net impulse is to follow (table[0] is the first sample); shapes a bisection on a sorted series gets wrong"""
+    shape = rng.choice(['dip', 'dip', 'overshoot', 'oscillate', 'walk', 'walk', 'nonpositive'])
+    F = rng.randint(8, 40) * 4                      # final value (the fractions of it are the band)
+    lo_v, hi_v = lo * F, hi * F
+
+    def ramp(a, b, k):
+        """k values strictly after a, ending at b (monotone, integer)"""
+        return [int(round(a + (b - a) * (i + 1) / k)) for i in range(k)]
+
+    if shape == 'dip':            # rise into the band, fall below the lower fraction (possibly below zero), rise to the final value
+        peak = rng.randint(int(lo_v) + 1, F)
+        low = rng.randint(-F // 4, max(0, int(math.ceil(lo_v)) - 1))
+        t = ramp(0, peak, rng.randint(1, 6)) + ramp(peak, low, rng.randint(1, 5)) + [low] * rng.randint(0, 3) + ramp(low, F, rng.randint(2, 8))
+    elif shape == 'overshoot':    # rise above the final value, come back below the upper fraction, end on the final value
+        top = F + rng.randint(1, F)
+        back = rng.randint(int(lo_v) + 1, max(int(lo_v) + 1, int(math.ceil(hi_v)) - 1))
+        t = ramp(0, top, rng.randint(2, 8)) + ramp(top, back, rng.randint(1, 5)) + [back] * rng.randint(0, 2) + ramp(back, F, rng.randint(1, 3))
+    elif shape == 'oscillate':    # several passes through the band
+        t, cur = [], 0
+        for _ in range(rng.randint(2, 5)):
+            up = rng.randint(int(hi_v), F + F // 2)
+            dn = rng.randint(-F // 8, max(0, int(lo_v)))
+            t += ramp(cur, up, rng.randint(1, 4)) + ramp(up, dn, rng.randint(1, 4))
+            cur = dn
+        t += ramp(cur, F, rng.randint(1, 5))
+    elif shape == 'walk':
+        t, cur = [], 0
+        for _ in range(rng.randint(4, 60)):
+            cur += rng.randint(-7, 9)
+            t.append(cur)
+        if t[-1] <= 0:
+            t.append(rng.randint(3, 30))
+    else:                         # final value zero or negative: the band is empty whatever the samples
+        t, cur = [], 0
+        for _ in range(rng.randint(3, 20)):
+            cur += rng.randint(-6, 6)
+            t.append(cur)
+        t.append(rng.choice([0, 0, -rng.randint(1, 20)]))
+    if rng.random() < 0.3:
+        t = [0] * rng.randint(1, 4) + t
+    if rng.random() < 0.3:
+        t = t + [t[-1]] * rng.randint(1, 4)
+    return np.array(t, dtype=float), shape
 
 
 def fragile_sig(cum, lo, hi):
@@ -133,6 +186,36 @@ def run(rep, rng, tier):
         r_d = core.guarded_pure(eqsig.im.calc_brac_dur, asig, thr, se=False)
         emit(1, 'calc_brac_dur' + hist, dt, 0, 0, thr, a, r_se, r_d, tol, {'values': list(a), 'dt': dt, 'threshold': thr},
              bool(np.any(a != 0)))
+    # --- significant duration on a user-supplied measure that is NOT monotone (net impulse): first / last in-band samples
+    NI = 24 if tier == 'quick' else 240
+    shapes_seen = {}
+    for k in range(NI):
+        if rng.random() < 0.6:
+            lo_k = rng.randint(1, 12)
+            lo, hi = lo_k / 16.0, rng.randint(lo_k + 2, 15) / 16.0
+        else:
+            lo, hi = 0.05, 0.95
+        table, shape = impulse_table(rng, lo, hi)
+        dyadic = rng.random() < 0.7
+        dt = gens.dyadic_dt(rng, 1, 8) if dyadic else rng.choice([0.01, 0.005, 0.02])
+        scale = 2.0 ** (-rng.choice([0, 0, 1, 3, 8, 14]))
+        a = np.diff(table * scale, prepend=0.0) / dt          # exact for dyadic dt: the net impulse is table * scale
+        tol = 0 if dyadic else 1e-12 * len(a) * dt
+        asig = eqsig.AccSignal(a.copy(), dt)
+        cumv = np.array(net_impulse(asig), dtype=float)
+        if fragile_sig(cumv, lo, hi):
+            fragile += 1
+            continue
+        use_default = (lo, hi) == (0.05, 0.95) and k % 2 == 0
+        kw = {} if use_default else {'start': lo, 'end': hi}
+        r_se = core.guarded_pure(eqsig.im.calc_sig_dur, asig, im=net_impulse, se=True, **kw)
+        r_d = core.guarded_pure(eqsig.im.calc_sig_dur, asig, im=net_impulse, se=False, **kw)
+        inband = bool(np.any((cumv > lo * cumv[-1]) & (cumv < hi * cumv[-1])))
+        shapes_seen[shape] = shapes_seen.get(shape, 0) + 1
+        emit(0, 'calc_sig_dur[net-impulse, not monotone]', dt, lo, hi, 0, cumv, r_se, r_d, tol,
+             {'values': list(a), 'dt': dt, 'start': lo, 'end': hi, 'im': 'net_impulse = cumsum(values)*dt', 'shape': shape,
+              'measure_values': list(cumv)}, bool(np.any(a != 0)) and (inband or shape == 'nonpositive'))
+    rep.extra['net_impulse_shapes'] = shapes_seen
     rep.extra['fragile_skipped'] = fragile
     rep.correspond('model.K_C10', 'check_case', cases, describe='model_out %s')
 
